@@ -80,7 +80,7 @@ macro_rules! g_debug {
             unwind: 5000,
             prop: |inp| {
                 use core::fmt::Write;
-                let valid: fn(&[u8]) -> bool = $valid;
+                let valid = $valid;
                 vassume!(valid(&inp[..]));
                 let mut a = core::mem::MaybeUninit::<$ty>::uninit();
                 generic::fill(&mut a, &inp[..]);
@@ -182,8 +182,8 @@ macro_rules! g_zeroize {
             bytes: core::mem::size_of::<$ty>(),
             unwind: 5000,
             prop: |inp| {
-                let valid: fn(&[u8]) -> bool = $valid;
-                let exempt: fn(usize) -> bool = $exempt;
+                let valid = $valid;
+                let exempt = $exempt;
                 vassume!(valid(&inp[..]));
                 let mut a = core::mem::MaybeUninit::<$ty>::uninit();
                 generic::fill(&mut a, &inp[..]);
@@ -216,7 +216,7 @@ macro_rules! g_frame {
             prop: |inp| {
                 use cipher::{BlockCipherDecrypt, BlockCipherEncrypt};
                 const S: usize = core::mem::size_of::<$ty>();
-                let valid: fn(&[u8]) -> bool = $valid;
+                let valid = $valid;
                 vassume!(valid(&inp[..S]));
                 let mut a = core::mem::MaybeUninit::<$ty>::uninit();
                 generic::fill(&mut a, &inp[..S]);
@@ -250,7 +250,7 @@ macro_rules! g_blocks {
             prop: |inp| {
                 use cipher::{BlockCipherDecrypt, BlockCipherEncrypt, Block};
                 const S: usize = core::mem::size_of::<$ty>();
-                let valid: fn(&[u8]) -> bool = $valid;
+                let valid = $valid;
                 vassume!(valid(&inp[..S]));
                 let mut a = core::mem::MaybeUninit::<$ty>::uninit();
                 generic::fill(&mut a, &inp[..S]);
@@ -301,7 +301,7 @@ macro_rules! g_keylen {
             prop: |inp| {
                 let len = take_u16(&inp[..], $max) as usize;
                 vassume!(len <= $max);
-                let accepted: fn(usize) -> bool = $accepted;
+                let accepted = $accepted;
                 let r = <$ty as cipher::KeyInit>::new_from_slice(&inp[..len]);
                 Some(r.is_ok() == accepted(len))
             }
@@ -321,7 +321,7 @@ macro_rules! g_new_eq_slice {
             prop: |inp| {
                 let key: [u8; $klen] = *inp;
                 // padding bytes of moved values are nondeterministic under Kani: compare the non-exempt (field) bytes
-                let exempt: fn(usize) -> bool = $exempt;
+                let exempt = $exempt;
                 let a = core::mem::MaybeUninit::new(<$ty as cipher::KeyInit>::new(&key.into()));
                 let b = match <$ty as cipher::KeyInit>::new_from_slice(&key[..]) {
                     Ok(c) => core::mem::MaybeUninit::new(c),
@@ -366,7 +366,7 @@ macro_rules! g_frame1 {
             $(stubs: [$(($o, $r)),*],)?
             prop: |inp| {
                 const S: usize = core::mem::size_of::<$ty>();
-                let valid: fn(&[u8]) -> bool = $valid;
+                let valid = $valid;
                 vassume!(valid(&inp[..S]));
                 let mut a = core::mem::MaybeUninit::<$ty>::uninit();
                 generic::fill(&mut a, &inp[..S]);
@@ -405,7 +405,7 @@ macro_rules! g_total {
             unwind: 5000,
             prop: |inp| {
                 const S: usize = core::mem::size_of::<$ty>();
-                let valid: fn(&[u8]) -> bool = $valid;
+                let valid = $valid;
                 vassume!(valid(&inp[..S]));
                 let mut a = core::mem::MaybeUninit::<$ty>::uninit();
                 generic::fill(&mut a, &inp[..S]);
@@ -437,7 +437,7 @@ macro_rules! g_mixed {
             $(stubs: [$(($o, $r)),*],)?
             prop: |inp| {
                 const S: usize = core::mem::size_of::<$ty>();
-                let valid: fn(&[u8]) -> bool = $valid;
+                let valid = $valid;
                 vassume!(valid(&inp[..S]));
                 let mut a = core::mem::MaybeUninit::<$ty>::uninit();
                 generic::fill(&mut a, &inp[..S]);
@@ -491,7 +491,7 @@ macro_rules! g_ctor_history {
                 let k1: [u8; $klen] = take(&inp[..], 0);
                 let k2: [u8; $klen] = take(&inp[..], $klen);
                 let k3: [u8; $klen] = take(&inp[..], 2 * $klen);
-                let exempt: fn(usize) -> bool = $exempt;
+                let exempt = $exempt;
                 // history: new(k2) [fresh process]; new(k1); new(k2); new(k3); new(k1).  The two constructions from k2
                 // must agree (the first is the fresh-process truth), and so must the two from k1 (one directly after
                 // k2, one after an unrelated third key has been through: a one-entry cache keyed on too little shows here)
@@ -501,12 +501,18 @@ macro_rules! g_ctor_history {
                 let e = core::mem::MaybeUninit::new(<$ty as cipher::KeyInit>::new(&k3.into()));
                 let d = core::mem::MaybeUninit::new(<$ty as cipher::KeyInit>::new(&k1.into()));
                 let _ = &e;
+                // one block copy of each instance's storage into a plain byte array (per-byte reads through a raw pointer
+                // carry six pointer obligations each; Blowfish has 4168 bytes)
+                const S: usize = core::mem::size_of::<$ty>();
+                let ba: [u8; S] = unsafe { core::ptr::read(a.as_ptr() as *const [u8; S]) };
+                let bb: [u8; S] = unsafe { core::ptr::read(b.as_ptr() as *const [u8; S]) };
+                let bc: [u8; S] = unsafe { core::ptr::read(c.as_ptr() as *const [u8; S]) };
+                let bd: [u8; S] = unsafe { core::ptr::read(d.as_ptr() as *const [u8; S]) };
                 let mut diff = 0u8;
                 let mut i = 0;
-                while i < core::mem::size_of::<$ty>() {
+                while i < S {
                     if !exempt(i) {
-                        diff |= generic::peek(&a, i) ^ generic::peek(&c, i);
-                        diff |= generic::peek(&b, i) ^ generic::peek(&d, i);
+                        diff |= (ba[i] ^ bc[i]) | (bb[i] ^ bd[i]);
                     }
                     i += 1;
                 }
@@ -531,7 +537,7 @@ macro_rules! g_blocks1 {
                 use cipher::Block;
                 const S: usize = core::mem::size_of::<$ty>();
                 const NB: usize = $nb;
-                let valid: fn(&[u8]) -> bool = $valid;
+                let valid = $valid;
                 vassume!(valid(&inp[..S]));
                 let mut a = core::mem::MaybeUninit::<$ty>::uninit();
                 generic::fill(&mut a, &inp[..S]);
@@ -611,7 +617,7 @@ macro_rules! g_blocks_part {
                 use cipher::Block;
                 const S: usize = core::mem::size_of::<$ty>();
                 const NB: usize = $nb;
-                let valid: fn(&[u8]) -> bool = $valid;
+                let valid = $valid;
                 vassume!(valid(&inp[..S]));
                 let mut a = core::mem::MaybeUninit::<$ty>::uninit();
                 generic::fill(&mut a, &inp[..S]);
@@ -736,7 +742,7 @@ macro_rules! g_mixed_half {
             $(stubs: [$(($o, $r)),*],)?
             prop: |inp| {
                 const S: usize = core::mem::size_of::<$ty>();
-                let valid: fn(&[u8]) -> bool = $valid;
+                let valid = $valid;
                 vassume!(valid(&inp[..S]));
                 let mut a = core::mem::MaybeUninit::<$ty>::uninit();
                 generic::fill(&mut a, &inp[..S]);
